@@ -384,15 +384,18 @@ def write_evidence(prop, tier, seed, level, coverage, wall, violations=0, assump
         # the last thorough run of every property is also kept in one file of its own (evidence/<id>.json always describes the
         # most recent run, which for a committed tree is the quick tier)
         q = os.path.join(VERIF, "thorough_runs.json")
-        try:
-            allt = json.load(open(q))
-        except Exception:
-            allt = {}
-        cov = {k: v for k, v in coverage.items() if k not in ("samples", "conformance_drift", "script_conformance_drift")}
-        allt[prop] = {"seed": int(seed), "wall_s": round(wall, 1), "violations": int(violations), "coverage": cov}
-        with open(q + ".tmp", "w") as fh:
-            json.dump(allt, fh, indent=1, default=str)
-        os.replace(q + ".tmp", q)
+        import fcntl
+        with open(q + ".lock", "w") as lk:      # several thorough checks may finish at the same time
+            fcntl.flock(lk, fcntl.LOCK_EX)
+            try:
+                allt = json.load(open(q))
+            except Exception:
+                allt = {}
+            cov = {k: v for k, v in coverage.items() if k not in ("samples", "conformance_drift", "script_conformance_drift")}
+            allt[prop] = {"seed": int(seed), "wall_s": round(wall, 1), "violations": int(violations), "coverage": cov}
+            with open(q + ".tmp", "w") as fh:
+                json.dump(allt, fh, indent=1, default=str)
+            os.replace(q + ".tmp", q)
     return p
 
 
